@@ -2,17 +2,20 @@
 # usage: tools/try_seed.sh <patch.diff> <Cxx> [more check args]
 # Applies a seeded change to a scratch copy of /repo (never to /repo itself while builders are running),
 # runs the check against it via VERIF_REPO, prints the verdict, removes the copy.
+# The run is hermetic: it gets its own copy of the Coq tree (sources + compiled files, taken under the build lock),
+# because Gen/*.v is regenerated from the tree under test and must never be written into /verif/coq from a seeded tree.
 set -u
 patch=$(readlink -f "$1"); cid=$2; shift 2
 d=$(mktemp -d /tmp/tryseed.XXXXXX)
 git -C /repo archive HEAD | tar -x -C "$d"
 ( cd "$d" && git init -q . 2>/dev/null && git apply --whitespace=nowarn "$patch" ) || { echo "PATCH DOES NOT APPLY"; rm -rf "$d"; exit 2; }
+mkdir -p "$d/_coq" /verif/build
+flock /verif/build/.lock rsync -a /verif/coq/ "$d/_coq/"
+cd /verif
 if [ "${WITH_PROOF:-0}" = "1" ]; then
-  # full run incl. layer P: needs its own copy of the Coq sources (Gen/*.v is regenerated from the seeded tree)
-  mkdir -p "$d/_coq" && rsync -a --include='*/' --include='*.v' --include='_CoqProject' --exclude='*' --exclude='Gen/*.v' /verif/coq/ "$d/_coq/" && rm -f "$d/_coq/Gen/"*.v
-  cd /verif && VERIF_REPO="$d" VERIF_OUT="$d/_out" VERIF_BUILD="$d/_build" VERIF_COQ="$d/_coq" ./check "$cid" "$@" 2>&1 | tail -60
+  VERIF_REPO="$d" VERIF_OUT="$d/_out" VERIF_BUILD="$d/_build" VERIF_COQ="$d/_coq" ./check "$cid" "$@" 2>&1 | tail -60
 else
-  cd /verif && VERIF_REPO="$d" VERIF_OUT="$d/_out" VERIF_BUILD="$d/_build" ./check "$cid" --no-proof "$@" 2>&1 | tail -60
+  VERIF_REPO="$d" VERIF_OUT="$d/_out" VERIF_BUILD="$d/_build" VERIF_COQ="$d/_coq" ./check "$cid" --no-proof "$@" 2>&1 | tail -60
 fi
 rc=${PIPESTATUS[0]}
 rm -rf "$d"
